@@ -115,3 +115,38 @@ def np_ov_sumd(a, d, mode, axis=0):
     idx = [slice(None)] * a.ndim
     idx[axis] = slice(d, d + a.shape[axis])
     return r[tuple(idx)]
+
+
+# ---- stateful-looking ops expressed as pure functions of (module, array)
+
+
+def set_slice(m, x, idx, v):
+    y = x.copy()
+    y[idx] = v
+    return y
+
+
+def set_masked(m, x, idx):
+    y = x.copy() if m is np else x.copy()
+    if m is np:
+        y = np.ma.masked_array(y)
+    y[idx] = np.ma.masked
+    return y
+
+
+def add_where_out(m, x, k=12):
+    o = x * 0
+    m.add(x, 1000, where=x > k, out=o)
+    return o
+
+
+def sin_out_self(m, x):
+    y = x.copy() if m is np else x + 0
+    m.sin(y, out=y)
+    return y
+
+
+def add_where_out_self(m, x, k=12):
+    y = x.copy() if m is np else x.copy()
+    m.add(y, 1000, where=y > k, out=y)
+    return y
